@@ -257,4 +257,79 @@ theorem isPow2C_iff (x : Nat) : isPow2C x = true ↔ ∃ k, x = 2^k := by
     refine ⟨Nat.ne_of_gt (Nat.pow_pos (by decide)), ?_⟩
     rw [Nat.and_two_pow_sub_one_eq_mod]; simp
 
+/-- reversed bucket indexes below `2^k` are multiples of `2^(64-k)` -/
+theorem bitrev_small (k y : Nat) (hk : k ≤ 64) (hy : y < 2^k) :
+    bitReverse64 y = revBits k y * 2^(64-k) := by
+  rw [bitReverse64_eq]
+  have := revBits_split k (64-k) y
+  have e : k + (64 - k) = 64 := by omega
+  rw [e, Nat.mod_eq_of_lt hy, Nat.div_eq_of_lt hy, revBits_zero] at this
+  simpa using this
+
+theorem revBits_injective {n a b : Nat} (ha : a < 2^n) (hb : b < 2^n) (h : revBits n a = revBits n b) : a = b := by
+  rw [← revBits_invol n a ha, ← revBits_invol n b hb, h]
+
+theorem bitrev_child (k i : Nat) (hk : k < 64) (hi : i < 2^k) :
+    bitReverse64 (2^k + i) = bitReverse64 i + 2^(63-k) := by
+  have h1 : (2^k + i) % 2^k = i := by rw [Nat.add_mod_left, Nat.mod_eq_of_lt hi]
+  have h2 : (2^k + i) / 2^k = 1 := by
+    apply Nat.div_eq_of_lt_le <;> omega
+  rw [bitrev_split_exact k (2^k + i) (by omega), h1, h2]
+  obtain ⟨m, hm⟩ : ∃ m, 64 - k = m + 1 := ⟨63 - k, by omega⟩
+  have : 63 - k = m := by omega
+  rw [hm, revBits_one_arg, this]
+
+/-- When the bucket nodes `0 … 2^k+i-1` are linked, nothing sorts between bucket `i` and its child
+`2^k+i`: `cds_lfht_create_bucket` may link the child directly behind its parent. -/
+theorem bitrev_no_between (k i x : Nat) (hk : k < 64) (hi : i < 2^k) (hx : x < 2^(k+1)) (hne : x ≠ 2^k + i)
+    (hlt : bitReverse64 i < bitReverse64 x) : bitReverse64 (2^k + i) < bitReverse64 x := by
+  rw [bitrev_child k i hk hi]
+  have hpos : 0 < 2^k := Nat.pow_pos (by decide)
+  have hxm : x % 2^k < 2^k := Nat.mod_lt _ hpos
+  have hsx := bitrev_split_exact k x (by omega)
+  have hq : x / 2^k < 2 := by
+    rw [Nat.pow_succ] at hx
+    exact Nat.div_lt_of_lt_mul hx
+  obtain ⟨m, hm⟩ : ∃ m, 64 - k = m + 1 := ⟨63 - k, by omega⟩
+  have hm' : 63 - k = m := by omega
+  have hoff : (x / 2^k = 0 ∧ revBits (64 - k) (x / 2^k) = 0) ∨
+      (x / 2^k = 1 ∧ revBits (64 - k) (x / 2^k) = 2^(63-k)) := by
+    have : x / 2^k = 0 ∨ x / 2^k = 1 := (fun q (hq : q < 2) => (by omega : q = 0 ∨ q = 1)) _ hq
+    rcases this with h0 | h1
+    · left; rw [h0, revBits_zero]; exact ⟨rfl, rfl⟩
+    · right; rw [h1, hm, revBits_one_arg, hm']; exact ⟨rfl, rfl⟩
+  have hE : 2^(64-k) = 2 * 2^(63-k) := by
+    rw [hm, hm', Nat.pow_succ]; omega
+  have hD : 0 < 2^(63-k) := Nat.pow_pos (by decide)
+  have hxeq : x = 2^k * (x / 2^k) + x % 2^k := (Nat.div_add_mod x (2^k)).symm
+  have hinj : revBits k i = revBits k (x % 2^k) → i = x % 2^k := revBits_injective hi hxm
+  rw [bitrev_small k i (by omega) hi] at hlt ⊢
+  rw [hsx, bitrev_small k (x % 2^k) (by omega) hxm] at hlt ⊢
+  generalize revBits (64 - k) (x / 2^k) = off at *
+  generalize 2^(64-k) = E at *
+  generalize 2^(63-k) = D at *
+  generalize revBits k i = a at *
+  generalize revBits k (x % 2^k) = b at *
+  rcases hoff with ⟨h0, rfl⟩ | ⟨h1, rfl⟩
+  · have hab : a < b := by
+      apply Nat.lt_of_mul_lt_mul_right (a := E); omega
+    have := Nat.mul_le_mul_right E (Nat.succ_le_of_lt hab)
+    rw [Nat.succ_mul] at this
+    omega
+  · have hab : a ≤ b := by
+      apply Nat.le_of_not_lt
+      intro hba
+      have := Nat.mul_le_mul_right E (Nat.succ_le_of_lt hba)
+      rw [Nat.succ_mul] at this
+      omega
+    rcases Nat.lt_or_eq_of_le hab with hlt' | heq
+    · have := Nat.mul_le_mul_right E (Nat.succ_le_of_lt hlt')
+      rw [Nat.succ_mul] at this
+      omega
+    · exfalso
+      have := hinj heq
+      apply hne
+      rw [h1] at hxeq
+      omega
+
 end UrcuVerif.Lfht
